@@ -109,11 +109,40 @@ func genC15(r *Rng, e *Emitter, n int) {
 		case 1:
 			stride := 2 + r.Intn(3)
 			nv := 1 + r.Intn(6)
+			long := r.chance(1, 12)
+			if long {
+				// long lines (block sizes of any scan in runs), doubling back on themselves so that the
+				// nearest segment is a short joining piece between far-apart stretches
+				nv = []int{64, 127, 128, 129, 130, 131, 200, 257, 300, 513, 1000}[r.Intn(11)]
+				e.tally("long-linestring")
+			}
 			line := make([]float64, 0, nv*stride)
+			leg := 1 + r.Intn(40)
 			for k := 0; k < nv; k++ {
-				line = append(line, float64(r.Intn(g)), float64(r.Intn(g)))
+				x, y := r.Intn(g), r.Intn(g)
+				if long {
+					// switchback: legs of `leg` steps to the right, then one step up and back to the left
+					row, col := k/leg, k%leg
+					if row%2 == 1 {
+						col = leg - 1 - col
+					}
+					x, y = 10*col, 4*row
+					if r.chance(1, 10) {
+						x, y = x+r.Intn(3)-1, y+r.Intn(3)-1
+					}
+				}
+				line = append(line, float64(x), float64(y))
 				for o := 2; o < stride; o++ {
 					line = append(line, r.anyBits())
+				}
+			}
+			if long {
+				// the query point: near one of the turns, near a random vertex, or anywhere
+				k := r.Intn(nv)
+				c[0], c[1] = line[k*stride]+float64(r.Intn(9)-4), line[k*stride+1]+float64(r.Intn(9)-4)
+				if r.chance(1, 3) {
+					row := r.Intn(nv/leg + 1)
+					c[0], c[1] = float64(10*(leg-1)*(row%2)+r.Intn(7)-3), float64(4*row+r.Intn(5)-2)
 				}
 			}
 			e.tally("op=ptline2")
